@@ -5,16 +5,19 @@ Mirrors (line numbers of `/repo` HEAD):
 
 * `TableEntry.__init__` / `from_flow_mod` (`flow_table.py:36-65`)                      → `mkEntry`
 * `TableEntry.is_matched_by` (`:85-100`)                                               → `isMatchedBy`
-* `TableEntry.touch_packet` (`:102-113`)                                               → `touch`
-* `is_idle_timed_out` / `is_hard_timed_out` (`:115-127`)                               → `idleOut`, `hardOut`
-* `flow_stats` / `to_flow_removed` (`:153-186`), `ofp_match.pack()` (`libopenflow_01.py:1186-1230`) → `flowStat`, `removedMsg`, `packPlain`
-* `FlowTable.matching_entries`, `flow_stats`, `aggregate_stats` (`:259-279`)            → `flowStatsOf`, `aggStatsOf`
-* `_remove_specific_entries`, `remove_expired_entries`, `remove_matching_entries` (`:281-311`) → `sweep`, `flowModDelete`
-* `check_for_overlapping_entry` (`:329-354`)                                           → `overlapScan`
+* `TableEntry.touch_packet` (`:102-112`)                                               → `touch`
+* `is_idle_timed_out` / `is_hard_timed_out` (`:114-126`)                               → `idleOut`, `hardOut`
+* `flow_stats` / `to_flow_removed` (`:153-183`), `ofp_match.pack()` (`libopenflow_01.py:1186-1230`) → `flowStat`, `removedMsg`, `packPlain`
+* `FlowTable.matching_entries`, `flow_stats`, `aggregate_stats` (`:255-274`)            → `statsEntries`, `Op.flowStats`, `Op.aggStats`
+* `_remove_specific_entries`, `remove_expired_entries`, `remove_matching_entries` (`:276-311`) → `sweep`, `flowModDelete`, `addBase`
+* `check_for_overlapping_entry`, `_matches_overlap` (`:329-374`, with the proposed repair D23 — `/verif/fixes`)  → `overlapScan`, `overlapsWith`
 * `SoftwareSwitchBase._handle_FlowTableModification` (`switch.py:215-232`)              → `wantsRemoved`, `notify`
-* `_rx_flow_mod` (`:292-310`), `_flow_mod_add/_modify/_modify_strict/_delete/_delete_strict` (`:747-842`) → `flowMod*`
-* `rx_packet` table part (`:513-526`)                                                  → `packetStep`
-* `_stats_flow` / `_stats_aggregate` (`:978-990`)                                      → `Op.flowStats`, `Op.aggStats`
+* `_rx_flow_mod` (`:292-310`), `_flow_mod_add/_modify/_modify_strict/_delete/_delete_strict` (`:747-842`) → `flowModStep`, `flowMod*`
+* `rx_packet`, table part (`:515-526`)                                                 → `packetStep`
+* `_stats_flow` / `_stats_aggregate` (`:978-990`; the request's match is decoded by `unpack(flow_mod=False)`, `libopenflow_01.py:2940`) → `statsEntries`
+
+`_remove_specific_entries(flows)` deletes by object identity the entries it was given, which were selected by a predicate over the
+table just before: the model filters by that predicate (same result, whatever duplicates the table holds).
 
 Time is a `Nat` in milliseconds (`time.time()` under the harness's virtual clock only takes values `k/8` s, exact in binary64;
 `idle_timeout` / `hard_timeout` are whole seconds).  An entry is `Entry EData` of `Model/FlowTable`: `priority`, `mtch` (the
@@ -212,13 +215,28 @@ def notify (now reason : Nat) (es : List FEntry) : List Out :=
 
 /-! ## flow-mod handlers -/
 
+/-- the address part of `_matches_overlap`: both prefixes present ⇒ they agree on the shorter one
+    (`IPAddr(x).inNetwork(IPAddr(y).get_network(min(xbits, ybits)))`) -/
+def nwOverlap : Option (Nat × Nat) → Option (Nat × Nat) → Bool
+  | some (xa, xb), some (ya, yb) => clearLow (32 - min xb yb) xa == clearLow (32 - min xb yb) ya
+  | _, _ => true
+
+/-- one flag field of `_matches_overlap`: `x is not None and y is not None and x != y` fails the test -/
+def viewOverlap : Option Nat → Option Nat → Bool
+  | some x, some y => x == y
+  | _, _ => true
+
+/-- `_matches_overlap(a, b)` (`flow_table.py`, repair D23): some packet could match both -/
+def overlapsWith (a b : OfMatch) : Bool :=
+  Fld.all.all (fun f => viewOverlap (a.view f) (b.view f)) && nwOverlap a.srcView b.srcView && nwOverlap a.dstView b.dstView
+
 /-- `check_for_overlapping_entry(in_entry)` as written: scan in table order, stop at the first lower effective priority -/
 def overlapScan (prio : Nat) (m : OfMatch) : Table EData → Bool
   | [] => false
   | e :: r =>
     if e.effectivePriority < prio then false
     else if e.effectivePriority > prio then overlapScan prio m r
-    else if m.matchesWith true e.mtch || e.mtch.matchesWith true m then true
+    else if overlapsWith e.mtch m then true
     else overlapScan prio m r
 
 def flowModFailed (s : State) (code : Nat) : State × List Out := (s, [.error OFPET_FLOW_MOD_FAILED code])
